@@ -33,7 +33,7 @@ ASSUMPTIONS = [
     'no stored-byte fault between operations: no listed property says what a reader owes its caller when the file changes under it',
     'index entry payload length is not compared (documented as including pad bytes)',
 ] + c01.ASSUMPTIONS[1:]
-PROBES = ['index_on_path', 'restart', 'restart_replaced', 'cross1', 'cross2', 'cross_ge3', 'cross_vr', 'len0', 'len_rest', 'len_beyond', 'off_beyond', 'same_twice', 'descending',
+PROBES = ['two_indexes_interleaved', 'index_on_path', 'restart', 'restart_replaced', 'cross1', 'cross2', 'cross_ge3', 'cross_vr', 'len0', 'len_rest', 'len_beyond', 'off_beyond', 'same_twice', 'descending',
           'after_failing', 'after_scan', 'fetch_pos', 'validate', 'encrypted_fetch', 'seq_disagrees_with_model', 'multi_vr_fetch']
 
 File = Index = None
@@ -141,6 +141,20 @@ def generate(seed, tier):
             for j in range(k + 1, len(ops)):
                 if ops[j][0] in ('fetch', 'fetch_pos') and 0 <= ops[j][1] < 10 ** 6:
                     ops[j] = [ops[j][0], ops[j][1] % n2] + ops[j][2:]
+    if rng.chance(0.2):
+        # a second index on another file is alive at the same time; its operations are interleaved with the history by an
+        # explicit schedule: [k, op] = run op on the other index just before operation k
+        other = D.gen_model(seeds.Rng(rng.getrandbits(32)), max_records=8)
+        n2 = len(other['records'])
+        steps = []
+        for k in sorted(rng.randrange(0, len(ops) + 1) for _ in range(rng.randrange(1, 7))):
+            if rng.chance(0.2):
+                steps.append([k, ['scan']])
+            else:
+                i = rng.randrange(n2)
+                total = sum(s_['n'] for s_ in other['records'][i]['segs'])
+                steps.append([k, ['fetch', i, rng.pick([0, 0, rng.randrange(0, total + 1)]), rng.pick([-1, -1, rng.randrange(0, total + 2)])]])
+        sc['shadow'] = {'model': other, 'steps': steps}
     return sc
 
 
@@ -164,13 +178,13 @@ def execute(scenario):
     op_shapes = []
     res.op('index')
     on_path = scenario.get('storage') == 'path'
-    scratch = path = None
+    scratch_dir = path = None
     if on_path:
         import os
         from sim import build as simbuild
-        scratch = os.path.join(simbuild.scratch_root(), f'tdsim-{os.getpid()}')
-        os.makedirs(scratch, exist_ok=True)
-        path = os.path.join(scratch, 'f.dlis')
+        scratch_dir = os.path.join(simbuild.scratch_root(), f'tdsim-{os.getpid()}')
+        os.makedirs(scratch_dir, exist_ok=True)
+        path = os.path.join(scratch_dir, 'f.dlis')
         with open(path, 'wb') as fh:
             fh.write(by)
         res.probe('index_on_path')
@@ -209,7 +223,23 @@ def execute(scenario):
         return res
     prev_kind = 'scan'
     prev_index = None
-    for k, op in enumerate(scenario['ops']):
+    shadow = None
+    if scenario.get('shadow'):
+        res.probe('two_indexes_interleaved')
+        sh_by, sh_layout = D.build(scenario['shadow']['model'])
+        try:
+            sh_index = Index.LogicalRecordIndex(SimFile(sh_by, clock, name='<sim-b>'))
+            sh_index._enter()
+            shadow = (sh_index, sh_layout['records'])
+        except Exception as err:
+            res.violation('index-exception', f'second index: {type(err).__name__}: {err}', exc=type(err).__name__, **c01.sul_facts(scenario['shadow']['model']['sul']))
+    for k, op in enumerate(list(scenario['ops']) + [None]):
+        if shadow is not None:
+            for kk, sop in scenario['shadow']['steps']:
+                if kk == k:
+                    shadow_step(res, shadow, sop, k)
+        if op is None:
+            break
         kind = op[0]
         res.op(kind)
         t0 = clock.seq
@@ -368,18 +398,51 @@ def execute(scenario):
         prev_index = ii
     try:
         index._exit()
+        if shadow is not None:
+            shadow[0]._exit()
     except Exception as err:
         res.violation('close-exception', f'{type(err).__name__}: {err}', exc=type(err).__name__)
     res.events.extend(f.log)
-    res.shape = seeds.digest([op_shapes, c01.shape_of(model), on_path])
-    if scratch:
+    res.shape = seeds.digest([op_shapes, c01.shape_of(model), on_path, shadow is not None])
+    if scratch_dir:
         import shutil
-        shutil.rmtree(scratch, ignore_errors=True)
+        shutil.rmtree(scratch_dir, ignore_errors=True)
     return res
+
+
+def shadow_step(res, shadow, sop, k):
+    """One operation on the second index (another file); it is held to the same standard as the first."""
+    sh_index, sh_exp = shadow
+    res.op('shadow_' + sop[0])
+    try:
+        if sop[0] == 'scan':
+            got = [fld.logical_data.bytes for fld in sh_index.rp66v1_file.iter_logical_records()]
+            want = [x['payload'] for x in sh_exp]
+        else:
+            _, i, off, ln = sop
+            got = sh_index.get_file_logical_data(i, off, ln).logical_data.bytes
+            pay = sh_exp[i]['payload']
+            want = pay[off:] if ln < 0 else pay[off:off + ln]
+    except Exception as err:
+        res.violation('fetch-exception', f'before op {k}: second index (alive at the same time), {sop} raised {type(err).__name__}: {err}',
+                      exc=type(err).__name__, second_index=True)
+        return
+    res.ev('shadow', k, sop[0], seeds.digest(got))
+    if got != want:
+        res.violation('fetch-mismatch', f'before op {k}: second index (alive at the same time), {sop} does not return what was written to its file', second_index=True)
 
 
 def candidates(scenario):
     ops = scenario['ops']
+    if scenario.get('shadow'):
+        yield {k: v for k, v in scenario.items() if k != 'shadow'}
+        st = scenario['shadow']['steps']
+        for j in range(len(st)):
+            if len(st) > 1:
+                yield dict(scenario, shadow=dict(scenario['shadow'], steps=st[:j] + st[j + 1:]))
+        for tag, m, dropped in D.phys_candidates(scenario['shadow']['model']):
+            if dropped is None:
+                yield dict(scenario, shadow=dict(scenario['shadow'], model=m))
     for k in range(len(ops) - 1, -1, -1):
         yield dict(scenario, ops=ops[:k] + ops[k + 1:])
     n = len(scenario['model']['records'])
